@@ -284,7 +284,7 @@ def reap_orphans():
         pass
 
 
-def run_kani(scratch_repo, pkg, harnesses, timeout_s=300, jobs=8, tests=False, extra=None, wall_timeout=None, playback=False):
+def run_kani(scratch_repo, pkg, harnesses, timeout_s=300, jobs=8, tests=False, extra=None, wall_timeout=None, playback=False, features=None):
     """Run cargo kani for the given fully-qualified harness names. Returns dict name -> result."""
     os.makedirs(CACHE, exist_ok=True)
     out_json = os.path.join(os.path.dirname(scratch_repo), "kani-%s-%d.json" % (pkg or "extract", int(time.time() * 1000) % 10 ** 9))
@@ -296,6 +296,8 @@ def run_kani(scratch_repo, pkg, harnesses, timeout_s=300, jobs=8, tests=False, e
         cmd += ["-j", str(jobs)]
     if tests:
         cmd += ["--tests"]
+    if features:
+        cmd += ["--features", features]
     if playback:
         cmd += ["-Z", "concrete-playback", "--concrete-playback=print"]
     if extra:
@@ -360,12 +362,12 @@ def tail_errors(out, n=60):
 PLAYBACK_RE = re.compile(r"Concrete playback unit test for `([^`]+)`:\n```\n(.*?)\n```", re.S)
 
 
-def kani_counterexample(scratch_repo, pkg, harness, timeout_s=600, tests=False):
+def kani_counterexample(scratch_repo, pkg, harness, timeout_s=600, tests=False, features=None):
     """Re-run one failing harness with concrete playback; return the generated unit test text."""
     # counterexample extraction always uses a SAT back end: CBMC cannot read float models back from
     # the SMT2 solvers (flatten2bv invariant), and finding a model is the easy direction for SAT.
     r = run_kani(scratch_repo, pkg, [harness], timeout_s=timeout_s, jobs=1, tests=tests, playback=True,
-                 extra=["--no-assert-contracts", "--solver", "cadical"])
+                 extra=["--no-assert-contracts", "--solver", "cadical"], features=features)
     tests_found = PLAYBACK_RE.findall(r["stdout"])
     out = []
     for (h, t) in tests_found:
